@@ -288,10 +288,72 @@ func TestBoundedC10(t *testing.T) {
 			}
 		}
 	}
+	// Copies are independent (state.cachingDB hands out SecureTrie.Copy for every proposal): a trie with uncommitted
+	// nodes - hashed or not, after a commit or not - is copied, the copy is written to (overwrites, inserts, deletes
+	// through shared branch nodes), and the original must keep every value and its root, and still commit to the root
+	// of a fresh trie with its content.
+	for variant := 0; variant < 8; variant++ {
+		for n := 2; n <= 40; n += 19 {
+			count++
+			st, err := NewSecure(common.EmptyHash, NewDatabase(dbm.NewMemDB()), 0)
+			if err != nil {
+				t.Fatal(err)
+			}
+			key := func(i int) []byte { return []byte(fmt.Sprintf("key-%d", i)) }
+			for i := 0; i < n; i++ {
+				st.TryUpdate(key(i), []byte(fmt.Sprintf("value-%d", i)))
+			}
+			if variant&1 != 0 {
+				st.Hash()
+			}
+			if variant&2 != 0 {
+				st.Commit(nil, 1)
+				st.TryUpdate(key(0), []byte("rewritten")) // dirty nodes on top of committed ones
+				st.TryUpdate(key(0), []byte("value-0"))
+			}
+			want := map[string]string{}
+			for i := 0; i < n; i++ {
+				want[string(key(i))] = fmt.Sprintf("value-%d", i)
+			}
+			var rootBefore common.Hash
+			if variant&4 != 0 {
+				rootBefore = st.Hash()
+			}
+			cp := st.Copy()
+			for i := 0; i < n; i++ {
+				switch i % 3 {
+				case 0:
+					cp.TryUpdate(key(i), []byte("overwritten-in-the-copy"))
+				case 1:
+					cp.TryDelete(key(i))
+				}
+			}
+			cp.TryUpdate([]byte("only-in-the-copy"), []byte("x"))
+			bad := 0
+			for k, v := range want {
+				if got, err := st.TryGet([]byte(k)); err != nil || string(got) != v {
+					bad++
+				}
+			}
+			if got, _ := st.TryGet([]byte("only-in-the-copy")); len(got) != 0 {
+				bad++
+			}
+			if bad > 0 {
+				fail("copy independence (variant %d, %d keys): after writes to the copy %d lookups in the original changed", variant, n, bad)
+			}
+			fresh, _ := NewSecure(common.EmptyHash, NewDatabase(dbm.NewMemDB()), 0)
+			for i := 0; i < n; i++ {
+				fresh.TryUpdate(key(i), []byte(fmt.Sprintf("value-%d", i)))
+			}
+			if h := st.Hash(); h != fresh.Hash() || (variant&4 != 0 && h != rootBefore) {
+				fail("copy independence (variant %d, %d keys): the original's root changed with writes to the copy", variant, n)
+			}
+		}
+	}
 	if knownPrefixOrder > 0 {
 		fmt.Printf("KNOWN-FINDING: property=C10 the trie iterator yields a key that is a strict prefix of other stored keys after them, not in key order (%d occurrences in this run)\n", knownPrefixOrder)
 	}
-	fmt.Printf("BOUNDED-CASES: %d histories (key pool of %d, %d keys per history, all permutations, deletes/re-inserts/overwrites, commit+reopen in the middle, small and large values, plain and secure), %d failures\n", count, len(bPool), size, nfail)
+	fmt.Printf("BOUNDED-CASES: %d histories (key pool of %d, %d keys per history, all permutations, deletes/re-inserts/overwrites, commit+reopen in the middle, small and large values, plain and secure; copy independence), %d failures\n", count, len(bPool), size, nfail)
 	if nfail > 0 {
 		t.Fatalf("%d failures", nfail)
 	}
